@@ -737,12 +737,21 @@ class NestGen:
 		ind = 1 if nested_in else 0
 		pad = '\t' * ind
 		lines = [f"{pad}class {cls.name}{f'({base.qual})' if base else ''}:"]
+		twin: str | None = None
+		more = [n for n, t in self.module_vars if t != 'int']
+		if nested_in is None and more and r.random() < 0.45:
+			twin = r.choice(more)   # a class variable (int) named like a module-level variable of another type
+			cls.member_names.add(twin)
+			cls.classvars.append((twin, 'int'))
+			lines.append(f'{pad}\t{twin}: ClassVar[int] = {r.randint(0, 9)}')
+			self.count('classvar-named-like-module-var')
 		for _ in range(r.randint(0, 2)):
 			cv = self.names.member(cls.member_names)
 			twins = [n for n, t in self.module_vars if t != 'int' and n not in cls.member_names]
 			if twins and r.random() < 0.5:
 				cv = r.choice(twins)   # same bare name as a module-level variable of a different type
 				cls.member_names.add(cv)
+				twin = cv
 				self.count('classvar-named-like-module-var')
 			cls.classvars.append((cv, 'int'))
 			lines.append(f'{pad}\t{cv}: ClassVar[int] = {r.randint(0, 9)}')
@@ -791,6 +800,20 @@ class NestGen:
 		if nested_in is None and r.random() < 0.3:
 			inner, ilines = self.gen_class(None, cls)
 			lines += ilines
+		if twin is not None and nested_in is None and r.random() < 0.8:
+			# a method that reads the bare name inside an if block and inside a for block: Python (and tranp's class-scope rule)
+			# resolve it to the MODULE variable; half of the time the method's name ends with the name of the class
+			base_name = self.names.member(cls.member_names).lstrip('_')
+			mname = f"{base_name}{r.choice(['_', ''])}{cls.name}" if r.random() < 0.5 else base_name
+			if mname not in self.names.used or mname == base_name:
+				self.names.used.add(mname)
+				cls.member_names.add(mname)
+				sn: set[str] = {mname}
+				pn, l1, lv, l2 = (self.names.var(sn) for _ in range(4))
+				lines += [f'{pad}\tdef {mname}(self, {pn}: int) -> int:', f'{pad}\t\tif {pn} > {r.randint(0, 3)}:', f'{pad}\t\t\t{l1} = {twin}',
+					f'{pad}\t\tfor {lv} in range({pn}):', f'{pad}\t\t\t{l2} = {twin}', f'{pad}\t\treturn {pn}', '']
+				cls.methods.append(FuncSig(mname, [(pn, 'int')], 'int', cls, 'method'))
+				self.count('method:twin-probe' + (':named-like-class' if mname != base_name else ''))
 		for _ in range(r.randint(1, 2 + self.size // 2)):
 			kind = r.choice(['method', 'method', 'method', 'classmethod', 'property'])
 			sig, flines = self.gen_function(cls, kind)
